@@ -518,6 +518,10 @@ def main(argv=None):
     if a.replay:
         payload = json.load(open(a.replay))
         case = payload.get("case", payload)
+        prepare_work()                 # an isolated work directory (VERIF_REPO) needs its coq/ and ocaml/ copies
+        from translator import gen as _gen
+        with Lock("coq"):
+            _gen.regenerate() if WORK != VERIF else _gen.regenerate(only=list(getattr(module, "GENERATED", [])) or None)
         res = module.replay(ctx, case)
         print(json.dumps(res, indent=1, default=str))
         return 0
